@@ -33,6 +33,12 @@ type panicMarshaler struct{ p *int }
 
 func (m panicMarshaler) MarshalJSON() ([]byte, error) { return []byte(string(rune(*m.p))), nil }
 
+// resErrMarshaler fails with one of the library's own errors (a lazily loaded value that
+// is not found, say); for the response this is still a value that cannot be marshalled.
+type resErrMarshaler struct{}
+
+func (resErrMarshaler) MarshalJSON() ([]byte, error) { return nil, res.ErrNotFound }
+
 type badMarshaler struct{}
 
 func (badMarshaler) MarshalJSON() ([]byte, error) { return []byte(`{"a":`), nil }
@@ -46,7 +52,7 @@ func (v Val) MarshalPanics() bool { return v.Kind == "marshalpanic" }
 // Unmarshalable reports whether json.Marshal fails on the materialised value.
 func (v Val) Unmarshalable() bool {
 	switch v.Kind {
-	case "chan", "func", "nan", "cycle", "marshalerr", "badjson", "badraw", "badraw2":
+	case "chan", "func", "nan", "cycle", "marshalerr", "badjson", "badraw", "badraw2", "marshalreserr":
 		return true
 	}
 	return false
@@ -79,6 +85,8 @@ func (v Val) Go() interface{} {
 		return errMarshaler{}
 	case "badjson":
 		return badMarshaler{}
+	case "marshalreserr":
+		return resErrMarshaler{}
 	case "marshalpanic":
 		return panicMarshaler{}
 	case "badraw":
@@ -259,7 +267,7 @@ func ResValue(allowDelete bool) *rapid.Generator[Val] {
 func AnyVal(unmarshalablePerMille int) *rapid.Generator[Val] {
 	return rapid.Custom(func(t *rapid.T) Val {
 		if rapid.IntRange(0, 999).Draw(t, "unm") < unmarshalablePerMille {
-			return Val{Kind: rapid.SampledFrom([]string{"chan", "func", "nan", "cycle", "marshalerr", "badjson", "badraw", "badraw2"}).Draw(t, "ukind")}
+			return Val{Kind: rapid.SampledFrom([]string{"chan", "func", "nan", "cycle", "marshalerr", "badjson", "badraw", "badraw2", "marshalreserr"}).Draw(t, "ukind")}
 		}
 		if rapid.IntRange(0, 5).Draw(t, "asraw") == 0 {
 			// handlers often hand over pre-encoded JSON
